@@ -35,3 +35,23 @@ Example C03_two_patterns_one_line :
   str_in (cp_repl ex_pA) ex_new_line = true /\ str_in (cp_repl ex_pB) ex_new_line = true.
 Proof. exact two_patterns_one_line. Qed.
 Print Assumptions C03_two_patterns_one_line.
+
+(* ---- Proofs.RewriteOccFacts ---- *)
+From Coq Require Import List Bool NArith ZArith Arith.
+From BV Require Import Lib.PyStr Model.Rewrite Proofs.RewriteFacts Proofs.RewriteOccFacts.
+Import ListNotations.
+Theorem C03_replace_spans_occurrence : forall (spans : list span) (line : list N) (off k a b : nat) (r : list N), spans_wf off (length line) spans -> nth_error spans k = Some (a, b, r) -> firstn (length r) (skipn (out_pos off spans k) (replace_spans line off spans)) = r.
+Proof. exact replace_spans_occurrence. Qed.
+Print Assumptions C03_replace_spans_occurrence.
+
+Theorem C03_rewrite_lines_occurrences : forall (pats : list cpat) (lines nl : list (list N)), (forall p : cpat, In p pats -> span_ok p) -> rewrite_lines pats lines = RwOk nl -> forall i : nat, i < length lines -> let sp := spans_on (iter_matches lines pats) i in forall (k a b : nat) (r : list N), nth_error sp k = Some (a, b, r) -> firstn (length r) (skipn (out_pos 0 sp k) (nth i nl [])) = r.
+Proof. exact rewrite_lines_occurrences. Qed.
+Print Assumptions C03_rewrite_lines_occurrences.
+
+Theorem C03_rewrite_lines_every_match_written : forall (pats : list cpat) (lines nl : list (list N)), (forall p : cpat, In p pats -> span_ok p) -> rewrite_lines pats lines = RwOk nl -> forall m : pmatch, In m (iter_matches lines pats) -> exists pos : nat, firstn (length (cp_repl (pm_pat m))) (skipn pos (nth (pm_line m) nl [])) = cp_repl (pm_pat m).
+Proof. exact rewrite_lines_every_match_written. Qed.
+Print Assumptions C03_rewrite_lines_every_match_written.
+
+Theorem C03_ex_occurrences : let sp := spans_on (iter_matches [ex_line] [ex_pA; ex_pB]) 0 in sp = [(2, 5, cp_repl ex_pA); (8, 10, cp_repl ex_pB)] /\ spans_wf 0 (length ex_line) sp /\ out_pos 0 sp 0 = 2 /\ out_pos 0 sp 1 = 10 /\ firstn (length (cp_repl ex_pA)) (skipn 2 ex_new_line) = cp_repl ex_pA /\ firstn (length (cp_repl ex_pB)) (skipn 10 ex_new_line) = cp_repl ex_pB /\ replace_spans ex_line 0 sp = ex_new_line /\ length ex_new_line + sum_cut sp = length ex_line + sum_repl sp.
+Proof. exact ex_occurrences. Qed.
+Print Assumptions C03_ex_occurrences.
